@@ -102,8 +102,8 @@ class BackendConcrete(Backend):
         return not arg
 
     @staticmethod
-    def _op_fpSqrt(rm, a):  # pylint:disable=unused-argument
-        return a.fpSqrt()
+    def _op_fpSqrt(rm, a):
+        return a.fpSqrt(rm)
 
     def convert(self, expr):
         """
